@@ -227,6 +227,13 @@ def check(case, rec):
                                                      'period_consistency_threshold': 0.5, 'monotonicity_threshold': 0.8}
     else:
         th_plot = {k: th[k] for k in th} if th.get('burst_fraction_threshold') is not None else {'burst_fraction_threshold': 1}
+    order = case.get('th_order', 0)
+    if 'min_n_cycles' in th_plot and order:
+        # the same settings with min_n_cycles first / in the middle of the dict (key order carries no meaning)
+        items = [(k, v) for k, v in th_plot.items() if k != 'min_n_cycles']
+        pos = 0 if order == 1 else len(items) // 2
+        items.insert(pos, ('min_n_cycles', th_plot['min_n_cycles']))
+        th_plot = dict(items)
     plt.close('all')
     keep = df.copy(deep=True)
     try:
@@ -278,6 +285,16 @@ def check(case, rec):
                     thp = dict(bm.thresholds)
                     guarded(bm.plot, xlim=xlim, plot_only_results=por, interp=interp)
                 check_summary_axes(tag, plt.gcf().axes, df, x, fs, thp, a, b, por, interp)
+                if case.get('second_drawing') and target == 'plot_burst_detect_summary' and c['method'] == 'cycles':
+                    # threshold tuning: re-label the SAME table object in place (documented behaviour of detect_bursts_cycles)
+                    # and draw it again with the same window - the picture must follow the new labels
+                    from bycycle.burst import detect_bursts_cycles
+                    th2 = {k: (min(1.0, v + 0.25) if k == 'monotonicity_threshold' else v) for k, v in th_plot.items()}
+                    plt.close('all')
+                    guarded(detect_bursts_cycles, df, **th2)
+                    keep = df.copy(deep=True)
+                    guarded(plot_burst_detect_summary, df, x, fs, dict(th2), xlim=xlim, plot_only_result=por, interp=interp)
+                    check_summary_axes(tag + '[second-drawing]', plt.gcf().axes, df, x, fs, th2, a, b, por, interp)
             else:
                 column = case['param'] if case['param'] in df.columns else ('monotonicity' if 'monotonicity' in df.columns else 'burst_fraction')
                 guarded(plot_burst_detect_param, df, x, fs, column, case['thresh'], xlim=xlim, interp=case['interp'])
@@ -290,7 +307,7 @@ def check(case, rec):
     cut = cycles_cut(df, nm, a, b)
     exact = xlim is None or ((a / fs) * fs == a and (b / fs) * fs == b)
     rec.label('target:' + target, 'center:' + c['center'], 'method:' + c['method'], 'xlim:%s' % ('none' if spec is None else spec[0]),
-              'cycle-cut-by-window' if cut else 'no-cut', 'k/fs-exact' if exact else 'k/fs-inexact', 'fs:%s' % fs)
+              'cycle-cut-by-window' if cut else 'no-cut', 'min_n_cycles-not-last' if (order and 'min_n_cycles' in th_plot) else 'keys-natural', 'k/fs-exact' if exact else 'k/fs-inexact', 'fs:%s' % fs)
     rec.nontrivial((xlim is not None and cut) or c['center'] == 'trough')
 
 
@@ -322,7 +339,8 @@ def strategy(draw, tier):
                                             'plot_burst_detect_summary', 'Bycycle.plot', 'plot_burst_detect_param'])),
             'switches': draw(st.lists(st.booleans(), min_size=5, max_size=5)), 'plot_only_result': draw(st.booleans()),
             'interp': draw(st.booleans()), 'param': draw(st.sampled_from(['monotonicity', 'amp_consistency', 'period_consistency', 'amp_fraction', 'burst_fraction'])),
-            'thresh': draw(st.sampled_from([0.0, 0.3, 0.5, 0.8, 1.0]))}
+            'thresh': draw(st.sampled_from([0.0, 0.3, 0.5, 0.8, 1.0])), 'th_order': draw(st.sampled_from([0, 0, 1, 2])),
+            'second_drawing': draw(st.integers(0, 2)) == 0}
 
 
 PARTS = [Part('figures', check, strategy=strategy, budget={'quick': 500, 'thorough': 12000}, shards={'quick': 16, 'thorough': 16},
